@@ -12,7 +12,7 @@ SPEC = {
     "shard": 20,
     "rule": "see harness/props/c24.go: histories of 1-4 writes (1-8 thorough) of 1-6 one-minute bars (1-12) on a fresh REAL instance "
             "(catalog + WAL file + TriggerPluginDispatcher) with the real OnDiskAggTrigger registered through trigger.NewMatcher and 1-3 "
-            "destinations of 5Min..4H in random order (6% non-nesting); 45% append-only in order, else corrections, late arrivals, "
+            "destinations of 5Min..4H and 1D in random order (6% non-nesting); 45% append-only in order, else corrections, late arrivals, "
             "multi-window and unsorted writes; distinct = distinct input; non-trivial = inside the guard with >= 2 writes and >= 4 bars",
     "trusted_base": [
         "Coq 8.16.1 kernel + vm_compute (no native_compute)",
@@ -30,7 +30,8 @@ SPEC = {
     ],
     "assumptions": [
         "system timezone UTC, no market-hours filter, base bucket <sym>/1Min/OHLCV with float32 Open/High/Low/Close/Volume, one "
-        "symbol, one year file, epochs on whole minutes, destination timeframes dividing 24 h (bucket slots = Truncate windows)",
+        "symbol, one year file, epochs on whole minutes, destination timeframes dividing 24 h incl. 1D (bucket slots = Truncate "
+        "windows; no bar on 1 January: the 1D bucket's index 0 is F2)",
         "bars-to-bars path only (the TICK/TRADE path through models.FromTrades is not modelled)",
         "one Fire per write, Fires sequential (the harness waits for quiescence after every write)",
     ],
